@@ -1,0 +1,12 @@
+//go:build verif
+
+package client
+
+import "time"
+
+// VerifScheduleActive evaluates an (unexported) schedule at time t. It only
+// exists in builds with the "verif" tag and is used by the verification
+// harness to compare schedule.activeForTime with its model.
+func VerifScheduleActive(start, end string, weekdays []time.Weekday, dates []string, t time.Time) (bool, error) {
+	return newSchedule(start, end, weekdays, dates).activeForTime(t)
+}
